@@ -30,6 +30,20 @@ def getOp (j : Json) : Except String (Op Int) := do
   | "copy" => pure .copy
   | _ => throw "BadArg:op"
 
+/-- a geometry history: `pad` is turned into the box it hands to `adjust_box` for the extents then in force -/
+def geoStatesJ (g : Geo Int) : List Json → Except String (List (Geo Int))
+  | [] => pure []
+  | j :: js => do
+      let k ← getStr j "op"
+      let op : GOp ← match k with
+        | "resample" => pure (GOp.resample (← getNatList j "newrate"))
+        | "adjust" => pure (GOp.box (← getBox j "box"))
+        | "pad" => pure (GOp.box (Dens.padBox (← getBool j "center") g.shape (← getNatList j "newshape")))
+        | "copy" => pure GOp.copy
+        | _ => throw "BadArg:op"
+      let g' := geoStep g op
+      pure (g' :: (← geoStatesJ g' js))
+
 /-- the operations of a history that did not raise (python: the caller catches and goes on) -/
 def keepOk (d : Dens Int Int) : List (Op Int) → List (Op Int)
   | [] => []
@@ -91,6 +105,11 @@ def handle (op : String) (a : Json) : Option R :=
       if r.length ≠ sh.length ∨ nr.length ≠ sh.length ∨ nr.any (· == 0) then throw "BadArg:rate"
       let g := resample (⟨sh, o, r⟩ : Geo Int) nr
       pure (Json.mkObj [("shape", jNats g.shape), ("origin", jInts g.origin), ("rate", jNats g.rate)])
+  | "c15.geoRun" => some do
+      let sh ← getNatList a "shape"; let o ← getIntList a "origin"; let r ← getNatList a "rate"
+      if r.length ≠ sh.length ∨ o.length ≠ sh.length then throw "BadArg:rate"
+      let st ← geoStatesJ (⟨sh, o, r⟩ : Geo Int) (← getArr a "ops").toList
+      pure (jList (st.map (fun g => Json.mkObj [("shape", jNats g.shape), ("origin", jInts g.origin), ("rate", jNats g.rate)])))
   | "c15.run" => some do
       let d ← getDens a
       let ops ← (← getArr a "ops").toList.mapM getOp
